@@ -40,7 +40,11 @@ fn parse_identifiers(input: &str) -> Vec<PreReleaseIdentifier> {
         .split('.')
         .map(|part| {
             if part.chars().all(|c| c.is_ascii_digit()) && (part == "0" || !part.starts_with('0')) {
-                PreReleaseIdentifier::UInt(part.parse().unwrap_or(0))
+                // A numeric identifier beyond u64 is kept as text rather than replaced by 0
+                match part.parse() {
+                    Ok(n) => PreReleaseIdentifier::UInt(n),
+                    Err(_) => PreReleaseIdentifier::Str(part.to_string()),
+                }
             } else {
                 PreReleaseIdentifier::Str(part.to_string())
             }
@@ -56,7 +60,11 @@ fn parse_build_metadata(input: &str) -> Vec<BuildMetadata> {
         .split('.')
         .map(|part| {
             if part.chars().all(|c| c.is_ascii_digit()) && (part == "0" || !part.starts_with('0')) {
-                BuildMetadata::UInt(part.parse().unwrap_or(0))
+                // A numeric identifier beyond u64 is kept as text rather than replaced by 0
+                match part.parse() {
+                    Ok(n) => BuildMetadata::UInt(n),
+                    Err(_) => BuildMetadata::Str(part.to_string()),
+                }
             } else {
                 BuildMetadata::Str(part.to_string())
             }
